@@ -2672,6 +2672,9 @@ class EdgeQLSourceGenerator(codegen.SourceGenerator):
         if isinstance(node.object, qlast.DescribeGlobal):
             self.write(node.object.to_edgeql())
         else:
+            if not node.object.itemclass:
+                # DESCRIBE OBJECT <name>: any kind of schema object
+                self._write_keywords('OBJECT ')
             self.visit(node.object)
         if node.language:
             self._write_keywords(' AS ')
